@@ -78,6 +78,11 @@ func runGmapinit(c *Ctx) {
 		name := core.FuncName(d.Obj)
 		fr := &core.Frame{Pkg: d.Pkg}
 		relevant := false
+		type omitted struct {
+			lit *ast.CompositeLit
+			f   *types.Var
+		}
+		var omitting []omitted
 		ast.Inspect(d.Decl.Body, func(n ast.Node) bool {
 			switch x := n.(type) {
 			case *ast.CompositeLit:
@@ -104,9 +109,12 @@ func runGmapinit(c *Ctx) {
 							set = true // positional literal: every field is given
 						}
 					}
-					a.note("R18", name+"/literal-sets("+core.FieldName(f)+")"+c.ordinal(x), x.Pos(), !set,
-						"a composite literal of the struct gives the indexed-written map field a value",
-						"a composite literal of the struct leaves the map field "+core.FieldName(f)+" nil, and the package writes it through an index expression: the first store panics (assignment to entry in nil map)", nil)
+					if set {
+						a.note("R18", name+"/literal-sets("+core.FieldName(f)+")"+c.ordinal(x), x.Pos(), false,
+							"a composite literal of the struct gives the indexed-written map field a value (or the field is assigned before the function returns)", "", nil)
+					} else {
+						omitting = append(omitting, omitted{x, f})
+					}
 				}
 			case *ast.AssignStmt:
 				for _, l := range x.Lhs {
@@ -153,6 +161,64 @@ func runGmapinit(c *Ctx) {
 					return nonNil(dd.expr, dd.fr, i, depth+1)
 				}
 				return false
+			}
+			// a literal that leaves the field out: the field is assigned later on the path, before the
+			// function ends (k := &T{}; k.f = make(…))
+			if p.End == core.EndReturn {
+				for _, om := range omitting {
+					at, direct := -1, false
+					contains := func(e ast.Expr) bool {
+						found := false
+						if e != nil {
+							ast.Inspect(e, func(y ast.Node) bool {
+								if y == ast.Node(om.lit) {
+									found = true
+								}
+								return !found
+							})
+						}
+						return found
+					}
+					for i, ev := range p.Events {
+						switch ev.Kind {
+						case core.KAssign:
+							if contains(ev.Rhs) && at < 0 {
+								at = i
+							}
+						case core.KReturn:
+							for _, r := range ev.Results {
+								if contains(r) {
+									at, direct = i, true
+								}
+							}
+						case core.KCall, core.KEnter, core.KGo, core.KDefer:
+							if ev.Call != nil {
+								for _, arg := range ev.Call.Args {
+									if contains(arg) {
+										at, direct = i, true
+									}
+								}
+							}
+						}
+					}
+					if at < 0 {
+						continue
+					}
+					assigned := false
+					if !direct {
+						for j := at + 1; j < len(p.Events); j++ {
+							b := p.Events[j]
+							if b.Kind == core.KAssign && !b.FieldInit && b.Var != nil && b.Var.IsField() && b.Var.Origin() == om.f {
+								if _, isIdx := unparen(b.Lhs).(*ast.IndexExpr); !isIdx {
+									assigned = true
+								}
+							}
+						}
+					}
+					a.note("R18", name+"/literal-sets("+core.FieldName(om.f)+")"+c.ordinal(om.lit), om.lit.Pos(), !assigned,
+						"a composite literal of the struct gives the indexed-written map field a value (or the field is assigned before the function returns)",
+						"a composite literal of the struct leaves the map field "+core.FieldName(om.f)+" nil and the path does not assign it before the function ends, while the package writes it through an index expression: the first store panics (assignment to entry in nil map)", p)
+				}
 			}
 			for i, ev := range p.Events {
 				if ev.Kind != core.KAssign {
